@@ -6,7 +6,9 @@ PATCH="$(realpath "$1")"; ID="$2"; TIER="${3:-quick}"
 cd /verif
 if [ -n "$(git -C /repo status --porcelain --untracked-files=no)" ]; then echo "/repo not clean"; exit 3; fi
 git -C /repo apply "$PATCH" || { echo "patch does not apply"; exit 3; }
-trap 'git -C /repo checkout -- . ; git -C /repo clean -fdq -- oal-*/src oal-*/tests 2>/dev/null' EXIT
+# The evidence file of a run against a seeded change is not evidence: keep the one that is there.
+SAVED="$(mktemp)"; cp "evidence/$ID.json" "$SAVED" 2>/dev/null
+trap 'git -C /repo checkout -- . ; git -C /repo clean -fdq -- oal-*/src oal-*/tests 2>/dev/null; cp "$SAVED" "/verif/evidence/$ID.json" 2>/dev/null; rm -f "$SAVED"' EXIT
 ./check "$ID" "$TIER" > /tmp/try_seed.log 2>&1
 RC=$?
 grep -E "^(VIOLATION|INCONCLUSIVE|C[0-9]+ )|signature:" /tmp/try_seed.log | head -12
